@@ -288,9 +288,19 @@ Neutral == {"Save", "SaveFile", "Reopen", "Render", "SetPageMargins", "AddTable"
             "SetFootnoteConfig", "AddHeader", "AddFooter"}
 EditNames == ParaAppenders \cup Neutral \cup {"RemoveParagraphAt"}
 
-HdrBase(pfx, t) == pfx \o (IF t = "first" THEN "first" ELSE IF t = "even" THEN "even" ELSE "1") \o ".xml"
-HdrName(pfx, t) == "word/" \o HdrBase(pfx, t)
-HdrRels(pfx, t) == "word/_rels/" \o HdrBase(pfx, t) \o ".rels"
+\* Headers and footers. The section refers to at most one definition per kind (default, first, even);
+\* AddHeader/AddFooter of kind t REPLACES that definition (C11). Which part then carries the new
+\* definition is the library's choice: it may rewrite the part the kind already refers to or write a
+\* part under an unused name - it may never write over a part that belongs to something else.
+HFOps == {"AddHeader", "AddFooter"}
+HFTy(e) == IF e.op = "AddHeader" THEN "od/header" ELSE "od/footer"
+\* the definition(s) of kind e.t that package model m refers to from its main part
+CurHF(m, e) == {r \in m.rels : r.src = DocRels /\ r.ty = HFTy(e) /\ r.ref = e.t}
+\* the part(s) carrying them and their relationship parts (label of the part + "-rels")
+HFParts(m, e) ==
+  LET tgt == {r.rt : r \in CurHF(m, e)}
+      lbl == {q.k : q \in {x \in m.parts : x.n \in tgt}}
+  IN tgt \cup {q.n : q \in {x \in m.parts : \E l \in lbl : x.k = l \o "-rels"}}
 
 \* parts an edit (re)writes by design: outside the byte-identity claim from then on. Each entry was
 \* confirmed against the code (header_footer.go, numbering.go updateNumberingFile, footnotes.go
@@ -298,9 +308,8 @@ HdrRels(pfx, t) == "word/_rels/" \o HdrBase(pfx, t) \o ".rels"
 \* document.go appendMissingStyles) and is necessary: without it the unchanged library is reported.
 \* The relationship part of a replaced header/footer is included because a correct implementation may
 \* discard it together with the part it belonged to.
-Touches(e) ==
-  CASE e.op = "AddHeader"         -> {HdrName("header", e.t), HdrRels("header", e.t)}
-    [] e.op = "AddFooter"         -> {HdrName("footer", e.t), HdrRels("footer", e.t)}
+Touches(o, e) ==
+  CASE e.op \in HFOps            -> HFParts(o, e)   \* the replaced definition of that kind in the opened package, if any
     [] e.op = "AddListItem"       -> {"word/numbering.xml"}
     [] e.op = "AddFootnote"       -> {"word/footnotes.xml"}
     [] e.op = "AddEndnote"        -> {"word/endnotes.xml"}
@@ -318,10 +327,11 @@ TouchesRels(o, e) ==
   ELSE {}
 
 \* what an edit adds to the package: [part name, kind, rel type, rel target] or none
-NewPart(e, ch) ==
+HFPartName(m, e, ch) == IF CurHF(m, e) # {} THEN (CHOOSE r \in CurHF(m, e) : TRUE).rt ELSE "word/" \o ch.name
+NewPart(m, e, ch) ==
   CASE e.op = "AddImage"    -> <<"word/media/" \o ch.name, "media", "od/image", "media/" \o ch.name>>
-    [] e.op = "AddHeader"   -> <<HdrName("header", e.t), "new-header", "od/header", "x">>
-    [] e.op = "AddFooter"   -> <<HdrName("footer", e.t), "new-footer", "od/footer", "x">>
+    [] e.op = "AddHeader"   -> <<HFPartName(m, e, ch), "new-header", "od/header", "x">>
+    [] e.op = "AddFooter"   -> <<HFPartName(m, e, ch), "new-footer", "od/footer", "x">>
     [] e.op = "AddListItem" -> <<"word/numbering.xml", "numbering", "od/numbering", "numbering.xml">>
     [] e.op = "AddFootnote" -> <<"word/footnotes.xml", "footnotes", "od/footnotes", "footnotes.xml">>
     [] e.op = "AddEndnote"  -> <<"word/endnotes.xml", "endnotes", "od/endnotes", "endnotes.xml">>
@@ -332,19 +342,21 @@ PartNames(m) == {p.n : p \in m.parts}
 
 \* the library's choices must be fresh
 ChoiceOK(s, e, ch) ==
-  /\ NewPart(e, ch) # <<>> => ch.id \notin DocIds(s.m)
+  /\ NewPart(s.m, e, ch) # <<>> => ch.id \notin DocIds(s.m)
   /\ e.op = "AddImage" => ("word/media/" \o ch.name) \notin PartNames(s.m)
+  \* a kind that is not defined yet gets a part under an unused name
+  /\ (e.op \in HFOps /\ CurHF(s.m, e) = {}) => ("word/" \o ch.name) \notin PartNames(s.m)
 
 RemoveIdx(q, i) == [j \in 1..(Len(q) - 1) |-> IF j < i THEN q[j] ELSE q[j + 1]]
 
 ApplyPkg(m, e, ch) ==
-  LET np == NewPart(e, ch) IN
+  LET np == NewPart(m, e, ch) IN
   IF np = <<>> THEN m
   ELSE LET exists == HasPart(m.parts, np[1])
            hasrel == \E r \in m.rels : r.src = DocRels /\ r.rt = np[1]
            part == [n |-> np[1], k |-> np[2], via |-> "override", cls |-> "new", h |-> "new", ct |-> np[2]]
            rel == [src |-> DocRels, id |-> ch.id, k |-> "new", ty |-> np[3], rt |-> np[1], tg |-> np[4],
-                   mode |-> "Internal", ref |-> ""]
+                   mode |-> "Internal", ref |-> IF e.op \in HFOps THEN e.t ELSE ""]
        IN [m EXCEPT !.parts = {p \in m.parts : p.n # np[1]}
                                \cup {IF exists THEN [PartOf(m.parts, np[1]) EXCEPT !.h = "new"] ELSE part},
                     !.rels = IF hasrel /\ e.op \notin {"AddHeader", "AddFooter", "AddImage"} THEN m.rels
@@ -352,7 +364,7 @@ ApplyPkg(m, e, ch) ==
 
 Apply(s, e, ch) ==
   IF e.op = "Open" THEN InitOf(e.pkg)
-  ELSE LET s1 == [s EXCEPT !.regen = s.regen \cup Touches(e), !.xrels = s.xrels \cup TouchesRels(s.o, e),
+  ELSE LET s1 == [s EXCEPT !.regen = s.regen \cup Touches(s.o, e), !.xrels = s.xrels \cup TouchesRels(s.o, e),
                            !.m = ApplyPkg(s.m, e, ch)] IN
        IF e.op \in ParaAppenders THEN [s1 EXCEPT !.paras = Append(s.paras, {})]
        ELSE IF e.op = "RemoveParagraphAt" THEN
